@@ -33,7 +33,15 @@ impl SwiftField for Field79 {
         let mut lines = Vec::new();
 
         // Parse up to 35 lines of 50 characters each
-        for line in input.lines().take(35) {
+        // More lines than the format allows are an error, not something to drop silently
+        let line_count = input.lines().count();
+        if line_count > 35 {
+            return Err(ParseError::InvalidFormat {
+                message: format!("Field 79 cannot have more than 35 lines, found {}", line_count),
+            });
+        }
+
+        for line in input.lines() {
             // Validate line length (max 50 characters)
             if line.len() > 50 {
                 return Err(ParseError::InvalidFormat {
